@@ -16,6 +16,15 @@
   for blocks (depth / held), the commit gate (pend, program layer, model checked in CrashDb_batch.cfg) and the reload
   (DbReload / rebuilt): the token tree, credentials and attestations that the real PseudonymManager.__init__ built
   are compared object by object with the reload of the model.
+* Unchanged: a record is its primary key, the byte strings inserted under it are its FORMS (CrashDb.tla: val, ackv,
+  DbExecute(r, v, mode) with the conflict clause of the INSERT, AckedUnchanged; model checked in CrashDb_faults.cfg
+  with a token handed in again in another form).  Workloads "forms*" store tokens that carry their content again in
+  their public form (and the other way round) between ordinary inserts, blocks and restarts; every row read back - and
+  every token of the rebuilt tree - must have exactly the bytes the model holds (ObsUnchanged, ObsRebuiltWhole).
+* Errors from the database: sqlite refuses a COMMIT (DbFail(d, rb): transaction rolled back / kept; program layer:
+  PCommitFail, PLeaveCommitFail - the error leaves the insert call / the block, nothing is acknowledged).  Workloads
+  "faults*": every COMMIT of the workload is refused in turn (injected at the connection by c19_child.py, which also
+  reports real failures whatever the code does with the exception), the application carries on, then the kill.
 """
 from __future__ import annotations
 
@@ -199,9 +208,11 @@ SCRIPTED = {
                 imp("f3", "f2", (), "bare"), imp("f3", "f2", (), "full"), imp("f3", "f2", (), "bare"), blob(0)],
     # the database refuses a COMMIT (volume full: transaction rolled back; file locked: transaction kept) in the
     # middle of a workload of every record kind, whole credentials and a block; the application carries on
-    "faults": [cred("x0"), imp("x1", "x0", (0, 1)), blob(0), cred("x2", "x0"), attest("x2", 2),
-               batch(("id",), [cred("x3", "x1"), attest("x3", 0)], "ok"), blob(1), cred("x4", "x1"),
-               imp("x5", None, (2,), "full")],
+    "faults": [cred("x0"), imp("x1", "x0", (0, 1)), blob(0),
+               batch(("id",), [cred("x3", "x1"), attest("x3", 0)], "ok"), cred("x4", "x0")],
+    "faults-2": [cred("x0"), imp("x1", "x0", (0, 1)), blob(0), cred("x2", "x0"), attest("x2", 2),
+                 batch(("id", "att"), [cred("x3", "x1"), attest("x3", 0), blob(2)], "ok"), blob(1), cred("x4", "x1"),
+                 imp("x5", None, (2,), "full"), imp("x5", None, (2,), "bare")],
 }
 LONG_CHAIN = 150   # stored tokens in one chain, more than any bounded waiting room of the token tree (100)
 
@@ -729,7 +740,7 @@ def start_model_check(tlcpool, tier):
             ("faults+forms", "CrashDb_faults.cfg")] \
         if tier == "quick" else \
            [("mc4", "CrashDb_mc4.cfg"), ("legacy4", "CrashDb_legacy4.cfg"), ("mc-3crashes", "CrashDb_mc_r4.cfg"),
-            ("batch", "CrashDb_batch4.cfg"), ("faults+forms", "CrashDb_faults.cfg"),
+            ("batch", "CrashDb_batch4.cfg"), ("faults+forms", "CrashDb_faults_b.cfg"),
             ("faults+forms3", "CrashDb_faults3.cfg")]
     jobs = [(tag, cfg, None, tlcpool.submit(run_tlc, "CrashDb.tla", cfg, timeout=3000)) for tag, cfg in cfgs]
     jobs += [(name, cfg, inv, tlcpool.submit(run_tlc, "CrashDb.tla", cfg, coverage=False, workers=4))
@@ -820,10 +831,11 @@ def enumerate_faults(pool, base, sc_base, both=True, seed=0):
             scs.append(dict(sc_base, phases=sc_base["prefix"] + [ph]))
     traces = [full]
     for sc, (lg, lrow, _inf) in pool.map(lambda x: (x, run_scenario(base, x)), scs):
-        t = build_trace(lg, sc, lrow)
-        if not any(e["a"] == "Fail" for e in t["events"]):
-            raise MachineryError("C19: the fault %s of workload %s was not injected" % (sc["phases"][-1], sc["name"]))
-        traces.append(t)
+        # (a COMMIT that only Database.close() makes is never asked for in a run that is killed before it closes: such
+        # a run is an ordinary kill at the end of the workload)
+        traces.append(build_trace(lg, sc, lrow))
+    if scs and not any(e["a"] == "Fail" for t in traces for e in t["events"]):
+        raise MachineryError("C19: no fault was injected into workload %s (%d COMMITs)" % (sc_base["name"], n))
     return traces, len(scs), n
 
 
@@ -996,7 +1008,10 @@ def run(tier, seed, replay=None):
                        "'with database:' blocks and with a long stored history are killed at every point from their "
                        "first item on that differs from the point before it (a statement other than a SELECT ran, an "
                        "insert returned or raised, a block was entered or left, an item completed); of the long-history "
-                       "workload a seeded sample of these points is taken")
+                       "workload a seeded sample of these points is taken; fault workloads: one run per COMMIT of the "
+                       "workload in which sqlite refuses that COMMIT (quick: rolled back or kept, alternating; "
+                       "thorough: both), followed by the rest of the workload and a kill at its end (every third run: "
+                       "a normal close)")
     ctx.assumptions += ["sqlite's WAL/synchronous=NORMAL atomicity and durability under process kill (page cache survives) "
                         "is trusted: kills land between statements, never inside one; power loss is out of scope",
                         "a SIGKILL the process sends to itself is delivered before kill() returns",
@@ -1007,7 +1022,15 @@ def run(tier, seed, replay=None):
                         "nest: the records wait for the OUTERMOST block, and an inner block that is left by IgnoreCommits "
                         "or another exception takes the acknowledgement of everything its database holds at that moment "
                         "with it (one connection, one transaction), also when the exception is caught inside the outer block",
-                        "blocks are entered and left by one thread"]
+                        "blocks are entered and left by one thread",
+                        "a record is identified by the primary key of its table; 'unchanged' = the durable row keeps the "
+                        "bytes it had when the record was first acknowledged: a later insert of the same key in another "
+                        "form (a token without / with its content) returns without touching the row (the code: INSERT OR "
+                        "IGNORE) and leaves the acknowledged bytes in place",
+                        "a COMMIT that sqlite refuses is injected at the sqlite3 connection in the two ways sqlite can "
+                        "leave the transaction (rolled back: full volume / I/O error; kept: locked file); sqlite's own "
+                        "behaviour on a really full volume is not exercised; an error from the database that leaves an "
+                        "insert call means 'not stored' to the caller"]
     rng = random.Random(seed)
     material = Material(9)
     clock = {"t": time.time(), "cpu": sum(os.times()[:4])}
@@ -1077,6 +1100,7 @@ def run(tier, seed, replay=None):
                 if tier == "thorough":
                     plans.append(("forms-2", SCRIPTED["forms-2"], False, (), {"from_item": True}))
                     plans.append(("faults:forms-2", SCRIPTED["forms-2"], False, (), {"faults": True}))
+                    plans.append(("faults-2", SCRIPTED["faults-2"], False, (), {"faults": True}))
                     plans.append(("faults:nested-2", SCRIPTED["nested-2"], False, (), {"faults": True}))
                     plans.append(("faults:long-history", long_history(LONG_CHAIN, tail=True), False,
                                   ({"items": list(range(LONG_CHAIN)), "kill": None},), {"faults": True}))
